@@ -43,7 +43,7 @@ theorem c04_t_DocPos_Unpack (pos : Nat) :
   · omega
 
 /-- the summing loop of `calcChunkSize`: it ends in the code after the loop with `batchSize` = the sum -/
-private theorem calc_loop (docs : List (List Int)) (prev mf : Int) (tl : List (List Int)) (acc : Nat)
+theorem c04_t_calcChunkSize_loop (docs : List (List Int)) (prev mf : Int) (tl : List (List Int)) (acc : Nat)
     (h : acc + (tl.map List.length).sum < 9223372036854775808) :
     T.docsStream_calcChunkSize_loop0 docs prev mf tl acc
       = T.docsStream_calcChunkSize_loop0 docs prev mf [] ((acc + (tl.map List.length).sum : Nat) : Int) := by
@@ -62,7 +62,7 @@ theorem c04_t_calcChunkSize (docs : List (List Int)) (prev maxFetch : Nat)
     T.docsStream_calcChunkSize docs prev maxFetch
       = some (calcFixed maxFetch (docs.map List.length) prev : Int) := by
   unfold T.docsStream_calcChunkSize
-  have := calc_loop docs prev maxFetch docs 0 (by omega)
+  have := c04_t_calcChunkSize_loop docs prev maxFetch docs 0 (by omega)
   simp only [Int.natCast_zero, Nat.zero_add] at this
   simp only [this]
   unfold T.docsStream_calcChunkSize_loop0 calcFixed
